@@ -520,3 +520,91 @@ class GenGetHostValue(Contract):
 
     def ensures(self, I, S):
         return [("C15.host-value", rval(S.result) == S.extra["want"])]
+
+
+# ---------------------------------------------------------------------------- _generate_exploits (partial correctness)
+# The retry loop draws (service, os, access) until `num_exploits` distinct names exist.  Partial correctness: IF it ends,
+# the table has exactly the requested number of entries, each referring to a defined service, a defined OS or None, the
+# requested cost and probability, and a valid access level.  (Termination is a separate matter: see the recorded finding
+# "exploit names exhausted".)  Names are f-strings of the drawn service / OS: ASSUMED to be functions of their parts.
+
+from pyvc.values import RecDict, NONE_ID
+
+EXPL_FIELDS = (("service", "name"), ("os", "name"), ("prob", "real"), ("cost", "real"), ("access", "int"))
+
+
+def expl_table_ok(I, d, count):
+    """every entry of the record dict refers to defined names and carries the requested cost / probability"""
+    e = I.ext_state["gex"]
+    if isinstance(d, PyDict):
+        zero = z3.is_int_value(z3.simplify(count)) and z3.simplify(count).as_long() == 0
+        return [("table-holds-the-exploits-added-so-far", z3.BoolVal(bool(zero and not d.d and not d.sym)))]
+    if not isinstance(d, RecDict):
+        return [("table-holds-the-exploits-added-so-far", z3.BoolVal(False))]
+    k = z3.Int("gex_k")
+    col = lambda f: z3.Select(d.cols[f][0], k)
+    return [("one-entry-per-exploit-added", d.size == count),
+            ("entries-are-well-formed", z3.ForAll([k], z3.Implies(z3.Select(d.dom, k), z3.And(
+                0 <= col("service"), col("service") < e["nSrv"],
+                z3.Or(col("os") == NONE_ID, z3.And(0 <= col("os"), col("os") < e["nOS"])),
+                col("prob") == e["p"], col("cost") == e["cost"], z3.Or(col("access") == 1, col("access") == 2)))))]
+
+
+@loop_contract
+class GenerateExploitsLoop(LoopContract):
+    qualname = GQ + "_generate_exploits"
+    ordinal = 0
+    tags = ("C15",)
+
+    def snapshot(self, I, fr, seq):
+        import ast
+        from pyvc.values import EngineLimit
+        # the counter the guard compares with the requested number, and the table the body fills - by role
+        names = {n.id for n in ast.walk(self.st.test) if isinstance(n, ast.Name)} & \
+            {n.target.id for n in ast.walk(self.st) if isinstance(n, ast.AugAssign) and isinstance(n.target, ast.Name)}
+        if len(names) != 1:
+            raise EngineLimit("retry loop without a single counter in its guard")
+        return {"counter": names.pop(), "table": store_target(self.st)}
+
+    def havoc(self, I, fr, entry, seq):
+        A = z3.ArraySort
+        srt = {"name": I_, "int": I_, "real": R_}
+        cols = {f: (I.ctx.fresh("gex_" + f, A(I_, srt[k])), k) for f, k in EXPL_FIELDS}
+        for v in loop_assigned(self.st):
+            fr.locals.pop(v, None)
+        fr.locals[entry["table"]] = RecDict(I.ctx.fresh("gex_dom", A(I_, B_)), cols, I.ctx.fresh("gex_size", I_), fresh=True,
+                                            label=entry["table"])
+        fr.locals[entry["counter"]] = SymV(I.ctx.fresh("gex_added", I_), "int")
+
+    def inv(self, I, fr, entry, seq, k):
+        e = I.ext_state["gex"]
+        added = ival(fr.locals[entry["counter"]])
+        return [("counter-in-range", z3.And(0 <= added, added <= e["n"]))] + expl_table_ok(I, fr.locals[entry["table"]], added)
+
+
+@contract
+class GenerateExploits(Contract):
+    may_draw = True
+    qualname = GQ + "_generate_exploits"
+    callable_by_contract = False
+    bounded = False
+    tags = {"": ("C15",)}
+
+    def setup(self, I, variant):
+        n, nSrv, nOS = z3.Int("num_exploits"), z3.Int("gen_nSrv"), z3.Int("gen_nOS")
+        p, cost = z3.Real("exploit_prob"), z3.Real("exploit_cost")
+        I.ctx.assume(z3.And(n >= 1, nSrv >= 1, nOS >= 1, p > 0, p <= 1))
+        I.ext_state["gex"] = {"n": n, "nSrv": nSrv, "nOS": nOS, "p": p, "cost": cost}
+        g = gen_obj(I, services=gen_names(nSrv, "services"), os=gen_names(nOS, "os"))
+        S = Scope()
+        S.a = {"self": g}
+        S.call_args = ([g, SymV(n, "int"), SymV(cost, "real"), SymV(p, "real")], {})
+        return S
+
+    def modifies(self, I, S):
+        return [S.a["self"]]
+
+    def ensures(self, I, S):
+        d = S.a["self"].fields.get("exploits")
+        e = I.ext_state["gex"]
+        return [("C15.exploits-" + l, t) for l, t in expl_table_ok(I, d, e["n"])]
